@@ -1,4 +1,5 @@
 import RV.C03.Codec
+import RV.C03.Struct
 /-
   C03 — executable model (re-exports the layers; see Codec.lean, Struct.lean).
 -/
